@@ -140,7 +140,7 @@ def fixedpoint_task(p, cfg, rec):
     SA, SB = sx(av, 2 * w + 2), sx(bv, 2 * w + 2)
     spec = {'add': z3.Extract(w - 1, 0, A + B), 'sub': z3.Extract(w - 1, 0, A - B),
             'mult': z3.Extract(w - 1 + fw, fw, SA * SB)}          # truncated signed product
-    for op in ('add', 'sub', 'mult'):
+    for op in cfg.get('ops', ('add', 'sub', 'mult')):
         res = run_paths(lambda: getattr(mk(a), op)(mk(b)).v)
         for k, r in enumerate(res):
             if r.exc is not None:
@@ -429,6 +429,9 @@ def tasks_for(tier, seed):
         for fw in range(0, maxw):
             if 2 <= 1 + iw + fw <= maxw:
                 t.append(('FixedPoint (1,%d,%d)' % (iw, fw), fixedpoint_task, {'fmt': (1, iw, fw)}))
+    # formats without a sign bit: sums and differences of the raw encodings modulo 2**w (the product of such formats is not claimed)
+    for iw, fw in ((1, 0), (2, 1), (4, 4), (3, 0), (1, 5)) if quick else ((1, 0), (2, 1), (4, 4), (3, 0), (1, 5), (8, 8), (2, 9), (6, 1)):
+        t.append(('FixedPoint (0,%d,%d) add/sub' % (iw, fw), fixedpoint_task, {'fmt': (0, iw, fw), 'ops': ('add', 'sub')}))
     rnd = random.Random(seed)
     for fmt in ('hp', 'sp', 'dp'):
         ew, mw, bias = FMT[fmt]
